@@ -996,4 +996,4 @@ TRUSTED = [
 ]
 
 if __name__ == "__main__":
-    sys.exit(run_property("C15", "proof", units(), EXPLANATION, TRUSTED, min_obligations=500))
+    sys.exit(run_property("C15", "other", units(), EXPLANATION, TRUSTED, min_obligations=500))
